@@ -29,8 +29,20 @@ func (x *Exec) mutexKey(st *State, recv Val) string {
 	return recv.T.S
 }
 
+func (x *Exec) mutexOwner(recv Val) string {
+	if recv.Loc != nil && recv.Loc.Kind == LField {
+		if n, ok := recv.Loc.ST.(*types.Named); ok {
+			return n.Obj().Name() + "." + recv.Loc.ST.Underlying().(*types.Struct).Field(recv.Loc.Idx).Name()
+		}
+	}
+	return ""
+}
+
 func (x *Exec) lockOp(st *State, recv Val, lock bool) {
 	key := x.mutexKey(st, recv)
+	if o := x.mutexOwner(recv); o != "" {
+		key = key + "#" + o
+	}
 	if lock {
 		for _, h := range st.held {
 			if h == key {
@@ -62,21 +74,28 @@ func (x *Exec) lockCheck(st *State, l *Loc, mode string) {
 	}
 	fname := l.ST.Underlying().(*types.Struct).Field(l.Idx).Name()
 	key := named.Obj().Pkg().Path() + "." + named.Obj().Name() + "." + fname
-	mu, ok := x.cs.Guarded[key]
+	owner, ok := x.cs.Guarded[key] // "Type.mu"
 	if !ok {
 		return
 	}
 	if st.ghost["fresh:"+l.Base.S].S == "true" {
 		return // object allocated in this function and not yet published
 	}
-	want := l.Base.S + "." + mu
+	j := strings.LastIndexByte(owner, '.')
+	ownerType, mu := owner[:j], owner[j+1:]
 	for _, h := range st.held {
-		if h == want {
+		if ownerType == named.Obj().Name() {
+			// the mutex of the same object
+			if strings.HasPrefix(h, l.Base.S+"."+mu+"#") || h == l.Base.S+"."+mu {
+				return
+			}
+		} else if strings.HasSuffix(h, "#"+owner) {
+			// a field of another type guarded by the owner's mutex
 			return
 		}
 	}
 	x.oblige(st, "LOCK", fmt.Sprintf("guarded(%s.%s %s at %s)", named.Obj().Name(), fname, mode, x.posText(x.curPos)), False,
-		fmt.Sprintf("%s of %s.%s without holding %s", mode, named.Obj().Name(), fname, mu))
+		fmt.Sprintf("%s of %s.%s without holding %s", mode, named.Obj().Name(), fname, owner))
 }
 
 func (x *Exec) mapLockCheck(st *State, m Val, mode string) {
@@ -104,6 +123,43 @@ func (x *Exec) immutCheck(st *State, l *Loc) {
 }
 
 func (x *Exec) lockEffects(st *State, ctr *Contract, env *Env) {}
+
+// holdsKeys: the lock-set entries named by a contract's `holds r.mu` clauses.
+func (x *Exec) holdsKeys(ctr *Contract, env *Env) []string {
+	var out []string
+	for _, h := range ctr.Holds {
+		j := strings.LastIndexByte(h, '.')
+		if j < 0 {
+			continue
+		}
+		e, err := ParseSpecExpr(h[:j])
+		if err != nil {
+			continue
+		}
+		if id, ok := e.(SIdent); ok {
+			if _, isVar := env.vars[id.Name]; !isVar {
+				if T := env.resolveType(id.Name); T != nil {
+					// `holds Type.mu`: some object's mutex of that type
+					out = append(out, "?#"+h)
+					continue
+				}
+			}
+		}
+		base := env.eval(e)
+		key := base.T.S + "." + h[j+1:]
+		if base.Typ != nil {
+			T := base.Typ
+			if p, ok := T.Underlying().(*types.Pointer); ok {
+				T = p.Elem()
+			}
+			if n, ok := T.(*types.Named); ok {
+				key += "#" + n.Obj().Name() + "." + h[j+1:]
+			}
+		}
+		out = append(out, key)
+	}
+	return out
+}
 
 // ---------------------------------------------------------------------------
 // O-OWN
